@@ -11,6 +11,36 @@ def _engine(module):
     return e
 
 
+CACHE_DIR = os.path.join(os.path.dirname(os.path.dirname(os.path.abspath(__file__))), "build", "results")
+
+
+def _cache_path(job):
+    import hashlib
+    key = hashlib.sha256(json.dumps(job, sort_keys=True, default=str).encode()).hexdigest()[:32]
+    return os.path.join(CACHE_DIR, key + ".json")
+
+
+def run_job_cached(job):
+    """Results are a deterministic function of (module bitcode hash = part of the module path, job parameters),
+    so properties that share a harness entry (C01/C02/C07) reuse each other's job results; flagged in evidence."""
+    p = _cache_path(job)
+    if os.path.exists(p):
+        try:
+            r = json.load(open(p))
+            r["cached"] = True
+            return r
+        except Exception:
+            pass
+    r = run_job(job)
+    if r.get("ok"):
+        os.makedirs(CACHE_DIR, exist_ok=True)
+        tmp = p + ".tmp%d" % os.getpid()
+        with open(tmp, "w") as f:
+            json.dump(r, f, default=str)
+        os.replace(tmp, p)
+    return r
+
+
 def run_job(job):
     """job: dict(module, entry, args, budget, B, max_input, opts...) -> result dict (JSON-able)"""
     t0 = time.time()
@@ -57,16 +87,17 @@ def _dedup(viols, per_aid=4):
     return out
 
 
-def run_jobs(jobs, nproc=None, progress=True):
+def run_jobs(jobs, nproc=None, progress=True, cache=False):
     nproc = nproc or min(16, os.cpu_count() or 4, max(1, len(jobs)))
     results = []
+    fn = run_job_cached if cache else run_job
     if nproc == 1 or len(jobs) == 1:
         for j in jobs:
-            results.append(run_job(j))
+            results.append(fn(j))
         return results
     ctx = mp.get_context("fork")
     with ctx.Pool(nproc, maxtasksperchild=8) as pool:
-        for i, r in enumerate(pool.imap_unordered(run_job, jobs)):
+        for i, r in enumerate(pool.imap_unordered(fn, jobs)):
             results.append(r)
             if progress and os.environ.get("PROGRESS") and (i + 1) % 10 == 0:
                 print("  .. %d/%d jobs" % (i + 1, len(jobs)), file=sys.stderr, flush=True)
